@@ -107,9 +107,15 @@ func (s *store) Get(offset uint64) (*packet.Publish, error) {
 }
 
 func (s *store) Append(publish *packet.Publish) error {
+	payload := mustEncode(publish)
+	// the log advances its offset even for an entry it refuses because of its size: every
+	// entry appended afterwards would be read back under an offset that is not its own.
+	if uint64(len(payload)) > commitlog.MaxEntrySize {
+		return commitlog.ErrEntryTooBig
+	}
 	s.mu.Lock()
 	defer s.mu.Unlock()
-	_, err := s.log.WriteEntry(uint64(time.Now().UnixNano()), mustEncode(publish))
+	_, err := s.log.WriteEntry(uint64(time.Now().UnixNano()), payload)
 	return err
 }
 
